@@ -1,0 +1,24 @@
+//! Verification hook (only with `--cfg avt_verif`).
+
+use super::Buffer;
+use std::fmt::Write;
+
+impl Buffer {
+    pub(crate) fn verif_state(&self, out: &mut String) {
+        let _ = write!(out, " B {} {} ", self.cols, self.rows);
+
+        match &self.scrollback_limit {
+            None => out.push('-'),
+            Some(l) => {
+                let _ = write!(out, "{}:{}", l.soft, l.hard);
+            }
+        }
+
+        let _ = write!(out, " {} {}", self.trim_needed as u8, self.lines.len());
+
+        for l in &self.lines {
+            out.push(' ');
+            crate::verif::line(l, out);
+        }
+    }
+}
